@@ -1,6 +1,8 @@
 ---------------------------- MODULE Gen_JUnit ----------------------------
 (* Behaviour generation for C16: JUnit's actions with a history variable of the calls the registry makes
-   (op + arguments).  A behaviour is a complete run; after D calls only closing calls stay enabled. *)
+   (op + arguments).  A behaviour is a complete run; after D calls only closing calls stay enabled.
+   A filtered-out test ("skip": counted by the registry, no call reaches the reporter) carries a name that contains
+   byte 122 'z': the harness installs the name filter "everything but z"; no other generated name contains it. *)
 EXTENDS JUnit, Json
 CONSTANTS D, NameAlpha, NameLen, FileAlpha, FileLen, MsgAlpha, MsgLen, PkgAlpha, PkgLen
 GNames == StrUpTo(NameAlpha, NameLen) \ {<<>>}
@@ -24,8 +26,10 @@ GStep == /\ ~fin /\ UNCHANGED fin
             \/ \E t \in Texts : More /\ cnt.p < MaxPrints /\ PrintText(t) /\ Step("print", t, E0, E0, 0, "")
             \/ \E f \in Files, l \in LineNos, m \in Msgs :
                   More /\ cnt.f < MaxFails /\ Failure(f, l, m) /\ Step("fail", f, E0, m, l, "")
+            \/ More /\ cnt.t < MaxTests /\ Skip /\ Step("skip", <<122, 39>>, <<102>>, E0, 1, "n")
             \/ TestEnded /\ Step("endtest", E0, E0, E0, 0, "")
             \/ GroupEnded(TRUE) /\ Step("endgroup", E0, E0, E0, 0, "")
+            \/ EmptyGroupEnded(TRUE, TRUE) /\ Step("endgroup", E0, E0, E0, 0, "")
             \/ TestsEnded /\ Step("end", E0, E0, E0, 0, "")
 GEnd == phase = "done" /\ ~fin /\ fin' = TRUE /\ UNCHANGED <<vars, h>>
 GNext == GStep \/ GEnd
